@@ -48,7 +48,7 @@ def register(reg):
       ghost={"k": "str"},
       merge_ifs=True,
       fs_faults=True,
-      shards=12,
+      shards=12, fork_checks=False,
       requires=[
           "fs_isfile(metafile)",
           # well-formed metafile: a dict with an info dict; the six editable names live on their documented level
